@@ -380,3 +380,26 @@ prop(
     technique="Lean 4 proof (located sink-preservation over the interpreter + dispatcher location invariant) + correspondence lanes",
     design_ref="DESIGN.md section 4 C14",
 )
+
+
+prop(
+    "C02",
+    ["LolHtml.Thm.C02_Chunk"],
+    [{"lane": "lex", "n_quick": 4000, "n_thorough": 200000},
+     {"lane": "pass", "n_quick": 2000, "n_thorough": 40000, "impl_only": True}],
+    LEX_RULE + "; oracle: every chunked run is compared with the single-write run (result, canonical event log with absolute ranges, output); lane pass: text nodes seen by a text handler under every encoding must not depend on the chunking",
+    ["the top-level statements (C02_chunk_invariance_statement, C09_schedule_independent_statement) are stated and kernel-checked on concrete documents under several chunkings, but the assembly from the step lemma (parsing loop for one cut, directive switches, dispatcher instance, induction over chunk lists) is still in progress: this claim is PARTIAL",
+     "panic-class, memory and out-of-fuel results are excluded on both runs (C15 shows they cannot occur)",
+     "controllers must not fail on, or branch on, text fragments (inherent in the streaming API)", MODEL_SCOPE],
+    level_text=("Lean 4 theorems for any table satisfying the decidable side-condition WfChunk (a forward dataflow analysis of "
+                "which position registers are live, checked as a post-fixpoint by decide +kernel on the generated table; it "
+                "encodes the discipline finding F7 violated), both machines and any sink: every action of both action sets "
+                "preserves the relation 'split run on a slice vs whole run on the document' with absolute ranges equal "
+                "(C02_action_partial), action lists / conditions / transitions (C02_body_partial), look-ahead sequences and "
+                "memchr scans give the same verdict unless the slice ends first (C02_lookahead_horizon, C02_memchr_horizon), "
+                "breaks re-base correctly (C02_break_*), and ONE STATE-FUNCTION INVOCATION is lock-step or, only if the slice "
+                "ends first, a break of the split run alone (C02_step). PARTIAL: whole-run invariance is a statement + oracle."),
+    level_note="Trusted: Lean kernel; DSL translator; the core model (lane lex).",
+    technique="Lean 4 proof (simulation between a run on a slice and a run on the whole document, step level) + correspondence lane + chunked-vs-single oracle",
+    design_ref="DESIGN.md section 4 C02",
+)
